@@ -117,7 +117,7 @@ ID_KINDS_ASC = ["range", "offset", "gaps"]
 # [186, 263, -374, 235] x ratios 1 : 1.4 with labels 1000, 999, 998, 997).  Repaired by 2dcaa8f (filed under C05, whose generator and
 # C04's use every layout incl. "descending"; witness corpus/C05/descending-labels-start-at-zero.json); C10 has not taken the layout
 # into its generator yet: it COULD be generated now, nothing in the code stands against it any more.
-STEP_KINDS = [k for k in hcm.LABELS if k != "descending"]
+STEP_KINDS = [k for k in hcm.LABELS if k not in ("descending", "countdown")]
 
 
 def gen_ids(rng, kind, n):
